@@ -531,6 +531,52 @@ func apiSetEq(a, b map[int]bool) bool {
 	return true
 }
 
+// C09 / C10: path-to-path equality over container-valued operands against reflect.DeepEqual (float64 decoding is the
+// reference: no spelling variation there), in both operand orders and negated, with the same document decoded with UseNumber
+func apiCheckDeepEquality(t *testing.T) {
+	vals := []string{`null`, `1`, `"s"`, `true`, `[1]`, `[1,2]`, `[null]`, `[]`, `{}`, `{"a":null}`, `{"b":1}`, `{"a":1}`, `{"a":null,"b":1}`, `{"b":1,"a":null}`, `{"b":null,"c":1}`,
+		`{"a":{"x":null}}`, `{"a":{"y":2}}`, `[[null]]`, `[[]]`, `[{"a":null}]`, `[{"b":1}]`, `{"a":[null]}`, `{"a":[]}`, `0`, `-0`, `1.0`, `"1"`, `false`, `{"a":1,"b":null}`, `{"a":1,"c":1}`}
+	var members []string
+	for i, v := range vals {
+		members = append(members, fmt.Sprintf(`{"id":%d,"v":%s}`, i, v))
+	}
+	for ri, ref := range vals {
+		src := `{"ref":` + ref + `,"m":[` + strings.Join(members, ",") + `]}`
+		plain := apiDecode(src)
+		want := map[int]bool{}
+		refv := plain.(map[string]interface{})["ref"]
+		for i, m := range plain.(map[string]interface{})["m"].([]interface{}) {
+			if reflect.DeepEqual(m.(map[string]interface{})["v"], refv) {
+				want[i] = true
+			}
+		}
+		for _, doc := range []interface{}{plain, refDecode(src, true)} {
+			for _, q := range []struct {
+				filter string
+				neg    bool
+			}{{`@.v == $.ref`, false}, {`$.ref == @.v`, false}, {`@.v != $.ref`, true}, {`$.ref != @.v`, true}} {
+				got, ok := apiSelect(t, q.filter, doc, "m")
+				if !ok {
+					if t.Failed() {
+						return
+					}
+					got = map[int]bool{}
+				}
+				exp := map[int]bool{}
+				for i := range vals {
+					if want[i] != q.neg {
+						exp[i] = true
+					}
+				}
+				if !apiSetEq(got, exp) {
+					t.Errorf("REPRODUCED: %q with $.ref = %s (reference %d) selects %v, reflect.DeepEqual on the float64 decoding selects %v", q.filter, ref, ri, got, exp)
+					return
+				}
+			}
+		}
+	}
+}
+
 // C10: numeric comparison is by value: every spelling of a number selects the same members whether the document was
 // decoded to float64 or to json.Number
 func apiCheckNumberSpellings(t *testing.T) {
@@ -3136,6 +3182,9 @@ func TestVerifReplay(t *testing.T) {
 		apiCheckFilters(t)
 		if rec.Property == "C10" && !t.Failed() {
 			apiCheckNumberSpellings(t)
+		}
+		if !t.Failed() {
+			apiCheckDeepEquality(t)
 		}
 	case "C12", "C13":
 		apiCheckAccessor(t)
